@@ -38,7 +38,7 @@ def fail(ident, what, witness, wclass="value"):
         failures[ident] = {"ident": ident, "witness_class": wclass, "what": what, "witness": witness}
 
 
-NAMES = ["A", "b c", "Ünï", "lower", "D/sub", "E", "F", "G"]
+NAMES = ["A", "R:x", "x", "b c", "Ünï", "lower", "D/sub", "U:b c"]
 
 
 def closure(n, edges, flags, redirects):
@@ -169,6 +169,61 @@ for _ in range(60 if tier == "quick" else 2000):
     reds = [(rng.choice(["to", "from"]), rng.randrange(n)) for _ in range(rng.randint(0, 3))]
     probe = [i for i in range(n) if rng.random() < 0.2]
     run_case(n, edges, flags, reds, probe)
+# re-analysis histories: analyse, add more templates (some including already marked ones), analyse again
+def run_reanalysis(n1, n2, edges, flags, premarked):
+    global evaluations
+    evaluations += 1
+    with quiet_stdout():
+        ctx = Wtp(quiet=True)
+    try:
+        names = NAMES[:n2]
+
+        def body(i):
+            return " ".join("{{%s}}" % names[a] for (a, b) in edges if b == i) + (" ==h==" if i in flags else " x")
+
+        def classify(c, page):
+            b = page.body or ""
+            return {nm for nm in names if "{{%s}}" % nm in b}, "==h==" in b
+        for i in range(n1):
+            ctx.add_page("Template:" + names[i], 10, body(i), need_pre_expand=i in premarked)
+        with quiet_stdout():
+            ctx.analyze_templates(classify)
+        for i in range(n1, n2):
+            ctx.add_page("Template:" + names[i], 10, body(i))
+        signal.alarm(10)
+        try:
+            with quiet_stdout():
+                ctx.analyze_templates(classify)
+        except Timeout:
+            fail("core:Wtp.analyze_templates#terminates", "re-analysis did not return in 10 s", {"edges": edges}, "timeout")
+            return
+        finally:
+            signal.alarm(0)
+        got = {p.title for p in ctx.get_all_pages([10]) if p.need_pre_expand}
+        m, _ = closure(n2, edges, set(flags) | set(premarked), [])
+        want = {"Template:" + names[x] for x in m}
+        if got != want:
+            fail("core:Wtp.analyze_templates#marks-exactly-the-least-closed-set[re-analysis]",
+                 f"after analysing, adding {names[n1:n2]} and analysing again: marked {sorted(got)} want {sorted(want)}",
+                 {"templates": names, "first_batch": n1, "edges(a included by b)": edges, "flags": sorted(flags),
+                  "added_with_need_pre_expand": sorted(premarked)}, "missing" if want - got else "extra")
+        distinct.add(("re", n1, n2, tuple(edges), tuple(sorted(flags)), tuple(sorted(premarked))))
+    finally:
+        try:
+            ctx.close_db_conn()
+        except Exception:
+            pass
+
+
+for _ in range(120 if tier == "quick" else 3000):
+    n2 = rng.randint(2, 5)
+    n1 = rng.randint(1, n2 - 1)
+    pairs = [(a, b) for a in range(n2) for b in range(n2)]
+    edges = [p for p in pairs if rng.random() < 0.3]
+    flags = {i for i in range(n2) if rng.random() < 0.3}
+    premarked = {i for i in range(n1) if rng.random() < 0.2}
+    run_reanalysis(n1, n2, edges, flags, premarked)
+run_reanalysis(2, 3, [(0, 1), (1, 2)], {0}, set())
 samples.append({"templates": NAMES[:3], "edges": [[0, 1], [1, 2], [2, 0]], "flags": [0], "note": "3-cycle"})
 
 emit({"evaluations": evaluations, "distinct_nontrivial": len({d for d in distinct if d[1] or d[3]}),
